@@ -126,6 +126,25 @@ add("C17",
     "optimisation fitness values depend on random starting points, so reproducibility is for a fixed random_state only. Axiom-free.",
     "Rocq/Coq proof for clause (a) and the operator-table clause; subprocess differential test for the rest of (b)")
 
+add("C04",
+    "Coq theorems over a tape model of ComponentGenerator / AGraphGenerator / the five AGraphMutation kinds (command, node, "
+    "parameter, prune, fork with _move_utilized_commands, _fix_indices incl. np.vectorize's probing call, _insert_fork in both "
+    "the arity-2 and the arity-1-only variant, _get_arity_operator) / AGraphCrossover: for EVERY tape of random draws, every "
+    "configuration whose operator items are operators, every size and every well-formed parent, each call that returns yields "
+    "a genome of the configured size whose operator rows reference earlier rows only, whose variables exist and whose operators "
+    "are enabled ones; closure over all histories of variations; such a genome renumbered is a C01-well-formed stack; an "
+    "unwritten child is its parent's stack; all loops are structurally bounded by the code's own (translated) attempt bounds "
+    "except parameter mutation's, which provably has an exiting draw at every iteration; on the C18 object model: a mutation "
+    "(copy + any row writes to the copy) leaves the parent's every field intact, keeps the age, and clears the evaluated flag "
+    "iff something was written; crossover leaves both parents intact and sets both ages. Tie: tr_variation.py (attempt bounds, "
+    "dispatch order, PMF items, cut range, presence of the loop bounds) + real operators run with every random source recorded, "
+    "tape replayed through the model inside Coq (same children, same write flag, exactly the recorded draws consumed); oracle "
+    "on the real objects (well-formedness, parents byte-identical, ages, flags, evaluate/print/simplify, 5 s alarm).",
+    "Trusted: Coq kernel + vm_compute; the tape abstraction of numpy/random (any in-range value); tr_variation.py; calls that "
+    "raise (empty operator set, crossover of < 3 rows, variables with 0 columns) produce no equation and are outside the "
+    "statement; F10 (unbounded rejection loops) fixed in dbd81ea. Axiom-free.",
+    "Rocq/Coq proof (for all tapes, configurations, parents) + recorded-tape differential correspondence")
+
 add("C05",
     "Coq theorems over a model of the generational pipeline (VarOr/VarAnd/AddRandomIndividuals flag handling, non-redundant "
     "evaluation possibly through local optimisation, the five generational_step variants, EaDiagnostics.update and the selections "
